@@ -4,6 +4,8 @@
 //!           f64::powf goes to the no-panic oracle only)
 //!   neg   : `{{ (-a) | probe }}`                                   vs  Model.Number.vm_negative
 //!   cmp   : `{{ [a == b, a != b, a < b, a <= b, a > b, a >= b] | probe }}` vs Model.Number.vm_cmp
+//!   cmpx  : the same six operators with the left (or right) operand computed in the template
+//!           (`0.0 * -1`, `inf - inf`, ...)                          vs  vm_binop then vm_cmp
 //!   prim  : Rust's own `as f64`, `floor`, `as i128`, `as u128` vs the model's f64 primitives
 //! Oracles on every evaluation: no panic; for `**` with base in {-1,0,1} and an exponent above
 //! u32::MAX the exact result fits, so an error there is the known finding
@@ -92,7 +94,7 @@ fn push_arith(sink: &mut Sink, meta: &mut Meta, st: &mut Stats, tera: &Tera, a: 
     let mut n_ok = 0;
     for (name, sym) in OPS {
         let r = eval_expr(tera, &format!("a {sym} b"), &ctx);
-        meta.oracle_checks += 1;
+        meta.oracle_checks += 2;
         let desc1 = json!({"op": sym, "a": json_value(a), "b": json_value(b), "impl": r.json(json_value)});
         if let Outcome::Panic(m) = &r {
             meta.oracle_fail(&format!("panic: {m}"), None, desc1.clone());
@@ -103,6 +105,35 @@ fn push_arith(sink: &mut Sink, meta: &mut Meta, st: &mut Stats, tera: &Tera, a: 
                 if (-1..=1).contains(&x) && y > u32::MAX as i128 && !matches!(r, Outcome::Ok(_)) {
                     st.pow_kf_hits += 1;
                     meta.oracle_fail("integer ** errors although the exact result fits in i128", Some(KF_POW), desc1.clone());
+                }
+            }
+        }
+        // implementation-side "exact or error" oracle on two i128 operands, computed with Rust's
+        // own checked arithmetic (independent of the Coq model): an Ok must carry the exact
+        // value, an error is only allowed when the exact value does not exist / does not fit
+        if let (Some(Number::Integer(x)), Some(Number::Integer(y))) = (a.as_number(), b.as_number()) {
+            let exact: Option<Option<i128>> = match sym {
+                "+" => Some(x.checked_add(y)),
+                "-" => Some(x.checked_sub(y)),
+                "*" => Some(x.checked_mul(y)),
+                "//" => Some(if y == 0 { None } else { x.checked_div_euclid(y) }),
+                "%" => Some(if y == 0 { None } else { Some(x.wrapping_rem_euclid(y)) }),
+                "**" if y >= 0 && (-1..=1).contains(&x) => {
+                    Some(Some(if y == 0 { 1 } else if x == -1 { if y % 2 == 0 { 1 } else { -1 } } else { x }))
+                }
+                "**" if y >= 0 && y <= 200 => Some(x.checked_pow(y as u32)),
+                _ => None,
+            };
+            if let Some(exact) = exact {
+                let bad = match (&r, exact) {
+                    (Outcome::Ok(v), Some(e)) => v.as_i128() != Some(e) || v.as_number().map_or(true, |n| n.is_float()),
+                    (Outcome::Ok(_), None) => true,
+                    (Outcome::Err(..), Some(_)) => !(sym == "**" && y > u32::MAX as i128), // D4 is reported above
+                    (Outcome::Err(..), None) => false,
+                    (Outcome::Panic(_), _) => false, // reported above
+                };
+                if bad {
+                    meta.oracle_fail(&format!("integer `{sym}` is neither the exact result nor an error-iff-out-of-range (exact: {exact:?})"), None, desc1.clone());
                 }
             }
         }
@@ -150,16 +181,30 @@ fn push_neg(sink: &mut Sink, meta: &mut Meta, tera: &Tera, a: &Value) {
     sink.push(g, desc, a.is_number() && !is_zero_number(a), None, &[tag, tag_of(a)]);
 }
 
-fn push_cmp(sink: &mut Sink, meta: &mut Meta, tera: &Tera, a: &Value, b: &Value) {
-    let ctx = ctx2(a, b);
-    let r = eval_expr(tera, "[a == b, a != b, a < b, a <= b, a > b, a >= b]", &ctx);
-    meta.oracle_checks += 1;
-    let desc = json!({"family": "cmp", "a": json_value(a), "b": json_value(b), "impl": r.json(json_value)});
-    if let Outcome::Panic(m) = &r {
-        meta.oracle_fail(&format!("panic: {m}"), None, desc.clone());
+fn nan_note(vs: &[&Value]) -> String {
+    // NaNs of every sign / payload are one S754_nan in the model; keep the bit patterns visible
+    // (and the cases distinct) with a comment inside the term
+    let bits: Vec<String> = vs
+        .iter()
+        .filter_map(|v| match v.as_number() {
+            Some(Number::Float(f)) if f.is_nan() => Some(format!("{:#018x}", f.to_bits())),
+            _ => None,
+        })
+        .collect();
+    if bits.is_empty() { String::new() } else { format!(" (* nan bits {} *)", bits.join(" ")) }
+}
+
+fn gal_ordering(o: std::cmp::Ordering) -> &'static str {
+    match o {
+        std::cmp::Ordering::Less => "Lt",
+        std::cmp::Ordering::Equal => "Eq",
+        std::cmp::Ordering::Greater => "Gt",
     }
+}
+
+fn check_six(meta: &mut Meta, r: &Outcome<Value>, desc: &serde_json::Value) {
     // implementation-side sanity of the six answers: exactly one of < == > for numbers
-    if let Outcome::Ok(v) = &r {
+    if let Outcome::Ok(v) = r {
         let bs: Vec<bool> = v.as_array().map(|x| x.iter().map(|y| y.as_bool().unwrap_or(false)).collect()).unwrap_or_default();
         if bs.len() == 6 {
             let (eq, ne, lt, le, gt, ge) = (bs[0], bs[1], bs[2], bs[3], bs[4], bs[5]);
@@ -169,10 +214,127 @@ fn push_cmp(sink: &mut Sink, meta: &mut Meta, tera: &Tera, a: &Value, b: &Value)
             }
         }
     }
-    let g = format!("{{| c_l := {}; c_r := {}; c_impl := {} |}}", gal_value(a), gal_value(b), r.gal(gal_value));
+}
+
+fn push_cmp(sink: &mut Sink, meta: &mut Meta, tera: &Tera, a: &Value, b: &Value) {
+    let ctx = ctx2(a, b);
+    let r = eval_expr(tera, "[a == b, a != b, a < b, a <= b, a > b, a >= b]", &ctx);
+    meta.oracle_checks += 1;
+    // the Rust API on the same pair (what sort / min / max / unique / user code see)
+    let api = if a.is_number() && b.is_number() {
+        meta.oracle_checks += 1;
+        let (a2, b2) = (a.clone(), b.clone());
+        match guarded(move || Ok((a2.partial_cmp(&b2), a2.cmp(&b2), a2 == b2, b2.cmp(&a2))))
+        {
+            Outcome::Ok(t) => Some(t),
+            Outcome::Panic(m) => {
+                meta.oracle_fail(&format!("panic in Value::partial_cmp/cmp/eq: {m}"), None, json!({"a": json_value(a), "b": json_value(b)}));
+                None
+            }
+            Outcome::Err(..) => None,
+        }
+    } else {
+        None
+    };
+    let api_json = api.map(|(pc, o, e, _)| json!({"partial_cmp": format!("{pc:?}"), "cmp": format!("{o:?}"), "eq": e}));
+    let desc = json!({"family": "cmp", "a": json_value(a), "b": json_value(b), "impl": r.json(json_value), "api": api_json});
+    if let Outcome::Panic(m) = &r {
+        meta.oracle_fail(&format!("panic: {m}"), None, desc.clone());
+    }
+    check_six(meta, &r, &desc);
+    if let Some((pc, o, e, rev)) = api {
+        // Ord must agree with PartialOrd and PartialEq, and be antisymmetric
+        if pc != Some(o) || (o == std::cmp::Ordering::Equal) != e || rev != o.reverse() {
+            meta.oracle_fail("Ord::cmp, PartialOrd::partial_cmp and PartialEq::eq disagree on two numbers", None, desc.clone());
+        }
+    }
+    let api_gal = match api {
+        None => "None".to_string(),
+        Some((pc, o, e, _)) => format!(
+            "(Some ({}, {}, {}))",
+            match pc { None => "None".to_string(), Some(x) => format!("Some {}", gal_ordering(x)) },
+            gal_ordering(o),
+            gal_bool(e)
+        ),
+    };
+    let g = format!(
+        "{{| c_l := {}; c_r := {}; c_impl := {}; c_api := {} |}}{}",
+        gal_value(a), gal_value(b), r.gal(gal_value), api_gal, nan_note(&[a, b])
+    );
     let mixed = tag_of(a) != tag_of(b);
     let t = format!("{}~{}", tag_of(a), tag_of(b));
-    sink.push(g, desc, mixed, None, &[&t]);
+    let is_nan = |v: &Value| matches!(v.as_number(), Some(Number::Float(f)) if f.is_nan());
+    let is_zero_f = |v: &Value| matches!(v.as_number(), Some(Number::Float(f)) if f == 0.0);
+    let mut tags: Vec<&str> = vec![&t];
+    if is_nan(a) || is_nan(b) { tags.push("with-nan"); }
+    if is_zero_f(a) && is_zero_f(b) { tags.push("zero~zero(float)"); }
+    sink.push(g, desc, mixed || is_nan(a) || is_nan(b) || (is_zero_f(a) && is_zero_f(b)), None, &tags);
+}
+
+/// `(a OP b)` computed inside the template and compared with `c` (swap: `c` on the left)
+fn push_cmpx(sink: &mut Sink, meta: &mut Meta, tera: &Tera, op: (&str, &str), a: &Value, b: &Value, c: &Value, swap: bool) {
+    let mut ctx = ctx2(a, b);
+    ctx.insert_value("c", c.clone());
+    let (name, sym) = op;
+    let l = if swap { "c".to_string() } else { format!("(a {sym} b)") };
+    let r_ = if swap { format!("(a {sym} b)") } else { "c".to_string() };
+    let e = format!("[{l} == {r_}, {l} != {r_}, {l} < {r_}, {l} <= {r_}, {l} > {r_}, {l} >= {r_}]");
+    let r = eval_expr(tera, &e, &ctx);
+    meta.oracle_checks += 1;
+    let desc = json!({"family": "cmpx", "expr": e, "a": json_value(a), "b": json_value(b), "c": json_value(c), "impl": r.json(json_value)});
+    if let Outcome::Panic(m) = &r {
+        meta.oracle_fail(&format!("panic: {m}"), None, desc.clone());
+    }
+    check_six(meta, &r, &desc);
+    let g = format!(
+        "{{| x_op := {name}; x_a := {}; x_b := {}; x_c := {}; x_swap := {}; x_impl := {} |}}{}",
+        gal_value(a), gal_value(b), gal_value(c), gal_bool(swap), r.gal(gal_value), nan_note(&[a, b, c])
+    );
+    let tag = match &r { Outcome::Ok(_) => "impl:ok", Outcome::Err(..) => "impl:err", Outcome::Panic(_) => "impl:panic" };
+    sink.push(g, desc, true, None, &[tag, sym]);
+}
+
+/// The floats every comparison must get right: both zeros, both ends of the subnormal and normal
+/// ranges, the integer-width boundaries with both signs, infinities, and NaNs of both signs with
+/// quiet / signalling / assorted payloads.
+fn core_float_pool() -> Vec<f64> {
+    let mut v = Vec::new();
+    let p53 = 9007199254740992.0f64;
+    for m in [
+        0.0,
+        f64::from_bits(1),
+        f64::MIN_POSITIVE,
+        0.5,
+        1.0,
+        1.5,
+        p53 - 1.0,
+        p53,
+        p53 + 2.0,
+        2f64.powi(63),
+        f64::from_bits(2f64.powi(63).to_bits() - 1),
+        2f64.powi(64),
+        f64::from_bits(2f64.powi(64).to_bits() + 1),
+        2f64.powi(127),
+        2f64.powi(128),
+        f64::MAX,
+        f64::INFINITY,
+    ] {
+        v.push(m);
+        v.push(-m);
+    }
+    for bits in [
+        0x7FF8_0000_0000_0000u64, // f64::NAN
+        0xFFF8_0000_0000_0000,    // -f64::NAN, what x86 gives for inf - inf
+        0x7FF8_0000_0000_0001,
+        0xFFF8_0000_DEAD_BEEF,
+        0x7FF0_0000_0000_0001, // signalling
+        0xFFF0_0000_0000_0001,
+        0x7FFF_FFFF_FFFF_FFFF,
+        0xFFFF_FFFF_FFFF_FFFF,
+    ] {
+        v.push(f64::from_bits(bits));
+    }
+    v
 }
 
 fn push_prim_conv(sink: &mut Sink, meta: &mut Meta, z_gal: String, z_json: String, f: f64) {
@@ -293,11 +455,23 @@ fn main() {
     let mut neg = Sink::new(&args.out, "neg", hdr, "check_neg");
     let mut cmp = Sink::new(&args.out, "cmp", hdr, "check_cmp");
     let mut prim = Sink::new(&args.out, "prim", hdr, "check_prim");
+    let mut cmpx = Sink::new(&args.out, "cmpx", hdr, "check_cmpx");
+    for s in [&mut arith, &mut neg, &mut cmp, &mut prim, &mut cmpx] {
+        s.shard_cap_set(400);
+    }
 
     // ---- pools
     let int_vals = pools::int_pool_i128();
     let ints_all_reps = pools::int_values(); // every boundary integer in every representation
-    let floats: Vec<Value> = pools::float_pool().into_iter().map(Value::from).collect();
+    let core_f: Vec<f64> = core_float_pool();
+    let mut all_f: Vec<f64> = core_f.clone();
+    for x in pools::float_pool() {
+        if !all_f.iter().any(|y| y.to_bits() == x.to_bits()) {
+            all_f.push(x);
+        }
+    }
+    let floats: Vec<Value> = all_f.iter().map(|x| Value::from(*x)).collect();
+    let core_floats: Vec<Value> = core_f.iter().map(|x| Value::from(*x)).collect();
     let big_u: Vec<Value> = pools::int_pool_u128_big().into_iter().map(Value::from).collect();
     let kinds = pools::kind_pool();
     let mut numbers: Vec<Value> = ints_all_reps.clone();
@@ -372,7 +546,7 @@ fn main() {
         }
         exhaustive_arith = true;
     }
-    let n_arith_rand = if thorough { 10_000 } else { 2_000 };
+    let n_arith_rand = if thorough { 10_000 } else { 1_500 };
     for k in 0..n_arith_rand {
         let pick = |rng: &mut Rng| -> Value {
             match rng.below(16) {
@@ -412,18 +586,132 @@ fn main() {
     }
 
     // ---- cmp
+    // (1) every tier: ALL ordered pairs of the core float pool (both zeros, NaNs of both signs ...)
+    for a in &core_floats {
+        for b in &core_floats {
+            push_cmp(&mut cmp, &mut meta, &tera, a, b);
+        }
+    }
+    let core_pairs = core_floats.len() * core_floats.len();
+    // (2) every tier: core floats x the integers at the width boundaries, both operand orders;
+    //     0 and 1 in all four representations, the others in one representation chosen at random
+    {
+        let mut key_ints: Vec<Value> = Vec::new();
+        for z in [0i128, 1] {
+            key_ints.extend(pools::int_reps(z));
+        }
+        let p53 = 1i128 << 53;
+        for z in [
+            -1, 2, -2, p53 - 1, p53, p53 + 1, p53 + 2, -p53, -(p53 + 1), (1i128 << 63) - 1, 1i128 << 63, -(1i128 << 63),
+            -(1i128 << 63) - 1, (1i128 << 64) - 1, 1i128 << 64, (1i128 << 64) + 1, i128::MAX, i128::MAX - 1, i128::MIN, i128::MIN + 1,
+        ] {
+            key_ints.push(rand_rep(&mut rng, z));
+        }
+        for u in [1u128 << 127, (1u128 << 127) + 1, u128::MAX, u128::MAX - 1] {
+            key_ints.push(Value::from(u));
+        }
+        for f in &core_floats {
+            let fx = f.as_f64().unwrap();
+            let special = fx == 0.0 || !fx.is_finite();
+            for z in &key_ints {
+                // quick tier: both operand orders for zeros / infinities / NaNs and for the
+                // integers 0 and 1, one order chosen at random for the rest
+                let both = thorough || special || matches!(z.as_i128(), Some(0) | Some(1));
+                let first = both || rng.chance(1, 2);
+                if first {
+                    push_cmp(&mut cmp, &mut meta, &tera, f, z);
+                }
+                if both || !first {
+                    push_cmp(&mut cmp, &mut meta, &tera, z, f);
+                }
+            }
+        }
+    }
+    // (3) operands that are RESULTS of arithmetic inside the template: -0.0 from `0.0 * -1`,
+    //     the hardware NaN from `inf - inf` / `inf * 0`, inf from overflow, exact zero from x - x
+    {
+        let f = |x: f64| Value::from(x);
+        let producers: Vec<((&str, &str), Value, Value)> = vec![
+            (("OpMul", "*"), f(0.0), Value::from(-1i64)),
+            (("OpMul", "*"), f(-0.0), Value::from(-1i64)),
+            (("OpMul", "*"), f(0.0), f(-1.0)),
+            (("OpMul", "*"), f(-0.0), Value::from(0u64)),
+            (("OpMul", "*"), f(f64::INFINITY), Value::from(0u64)),
+            (("OpMul", "*"), f(f64::NEG_INFINITY), f(0.0)),
+            (("OpMul", "*"), f(f64::MAX), Value::from(2u64)),
+            (("OpMul", "*"), f(f64::from_bits(1)), f(-0.5)),
+            (("OpSub", "-"), f(f64::INFINITY), f(f64::INFINITY)),
+            (("OpSub", "-"), f(f64::NEG_INFINITY), f(f64::NEG_INFINITY)),
+            (("OpSub", "-"), f(1.5), f(1.5)),
+            (("OpSub", "-"), f(-0.0), Value::from(0u64)),
+            (("OpSub", "-"), f(-0.0), f(0.0)),
+            (("OpAdd", "+"), f(f64::INFINITY), f(f64::NEG_INFINITY)),
+            (("OpAdd", "+"), f(-0.0), f(-0.0)),
+            (("OpAdd", "+"), f(-0.0), f(0.0)),
+            (("OpAdd", "+"), f(-1.5), f(1.5)),
+            (("OpDiv", "/"), f(0.0), Value::from(-1i64)),
+            (("OpDiv", "/"), Value::from(0u64), Value::from(-5i64)),
+            (("OpDiv", "/"), f(f64::INFINITY), f(f64::INFINITY)),
+            (("OpDiv", "/"), f(-1.0), f(f64::INFINITY)),
+            (("OpRem", "%"), f(-3.0), f(1.5)),
+            (("OpRem", "%"), f(f64::INFINITY), f(2.0)),
+            (("OpFloorDiv", "//"), f(-0.5), f(f64::INFINITY)),
+            (("OpFloorDiv", "//"), f(f64::NAN), f(2.0)),
+        ];
+        let against: Vec<Value> = vec![
+            f(0.0), f(-0.0), Value::from(0u64), Value::from(0i64), Value::from(0i128), f(1.0), Value::from(1u64), Value::from(-1i64),
+            f(f64::NAN), f(-f64::NAN), f(f64::INFINITY), f(f64::NEG_INFINITY), f(f64::from_bits(1)), f(-f64::from_bits(1)), Value::from(u128::MAX),
+        ];
+        for (op, a, b) in &producers {
+            for c in &against {
+                push_cmpx(&mut cmpx, &mut meta, &tera, *op, a, b, c, false);
+                push_cmpx(&mut cmpx, &mut meta, &tera, *op, a, b, c, true);
+            }
+            // ... and the result itself, taken out of the engine, as an ordinary operand
+            if let Outcome::Ok(v) = eval_expr(&tera, &format!("a {} b", op.1), &ctx2(a, b)) {
+                for c in &against {
+                    push_cmp(&mut cmp, &mut meta, &tera, &v, c);
+                    push_cmp(&mut cmp, &mut meta, &tera, c, &v);
+                }
+                push_cmp(&mut cmp, &mut meta, &tera, &v, &v);
+            }
+        }
+    }
     let mut exhaustive_cmp = false;
     if thorough {
-        // every ordered pair of pool numbers in every representation
-        for a in &numbers {
-            for b in &numbers {
+        // every float of the pool against every boundary integer in EVERY representation, both
+        // operand orders, and every ordered pair of floats
+        for f in &floats {
+            for z in &ints_all_reps {
+                push_cmp(&mut cmp, &mut meta, &tera, f, z);
+                push_cmp(&mut cmp, &mut meta, &tera, z, f);
+            }
+            for g in &floats {
+                push_cmp(&mut cmp, &mut meta, &tera, f, g);
+            }
+        }
+        // every ordered pair of boundary integer VALUES (one representation each, at random) ...
+        let vals: Vec<Value> = int_vals.iter().map(|z| rand_rep(&mut rng, *z)).chain(big_u.iter().cloned()).collect();
+        for a in &vals {
+            for b in &vals {
+                push_cmp(&mut cmp, &mut meta, &tera, a, b);
+            }
+        }
+        // ... and every ordered pair of ALL representations of the integers at the width boundaries
+        let mut edge: Vec<Value> = Vec::new();
+        for z in [0i128, 1, -1, (1 << 63) - 1, 1 << 63, -(1i128 << 63), -(1i128 << 63) - 1, (1 << 64) - 1, 1 << 64, i128::MAX, i128::MIN] {
+            edge.extend(pools::int_reps(z));
+        }
+        edge.extend(big_u.iter().cloned());
+        for a in &edge {
+            for b in &edge {
                 push_cmp(&mut cmp, &mut meta, &tera, a, b);
             }
         }
         exhaustive_cmp = true;
     }
     // neighbours: a float against the integers next to it, an integer against the floats next to it
-    let n_nb = if thorough { 6000 } else { 500 };
+    let n_nb = if thorough { 6000 } else { 400 };
     for k in 0..n_nb {
         if k % 2 == 0 {
             let x = if rng.chance(1, 3) { rng.pick(&floats).as_f64().unwrap() } else { rand_f64(&mut rng) };
@@ -453,7 +741,7 @@ fn main() {
             if rng.chance(1, 2) { push_cmp(&mut cmp, &mut meta, &tera, &a, &zv) } else { push_cmp(&mut cmp, &mut meta, &tera, &zv, &a) }
         }
     }
-    let n_cmp_rand = if thorough { 6000 } else { 1800 };
+    let n_cmp_rand = if thorough { 6000 } else { 500 };
     for _ in 0..n_cmp_rand {
         let pick = |rng: &mut Rng| -> Value {
             match rng.below(12) {
@@ -481,20 +769,20 @@ fn main() {
     for u in pools::int_pool_u128_big() {
         push_prim_conv(&mut prim, &mut meta, gal_zu(u), u.to_string(), u as f64);
     }
-    for x in pools::float_pool() {
-        push_prim_float(&mut prim, &mut meta, x);
+    for x in &all_f {
+        push_prim_float(&mut prim, &mut meta, *x);
     }
     {
         let fp = pools::float_pool();
         for x in &fp {
             for y in &fp {
-                if thorough || rng.chance(1, 12) {
+                if thorough || rng.chance(1, 20) {
                     push_prim_float2(&mut prim, &mut meta, *x, *y);
                 }
             }
         }
     }
-    for _ in 0..(if thorough { 3000 } else { 200 }) {
+    for _ in 0..(if thorough { 1500 } else { 120 }) {
         if rng.chance(1, 3) {
             let (x, y) = (rand_f64(&mut rng), rand_f64(&mut rng));
             push_prim_float2(&mut prim, &mut meta, x, y);
@@ -513,11 +801,14 @@ fn main() {
     meta.extra.insert("oracle_only_note".into(), json!("`**` with a float operand or a negative integer exponent (f64::powf) is run for the no-panic oracle only; the model does not compute it"));
     meta.extra.insert("pow_exponent_above_u32_hits".into(), json!(st.pow_kf_hits));
     meta.extra.insert("exhaustive_arith_pairs_of_boundary_values".into(), json!(exhaustive_arith));
-    meta.extra.insert("exhaustive_cmp_pairs_of_pool_numbers_all_reps".into(), json!(exhaustive_cmp));
+    meta.extra.insert("exhaustive_cmp_float_x_all_int_reps_and_value_pairs".into(), json!(exhaustive_cmp));
     meta.extra.insert("pool_sizes".into(), json!({"boundary_ints": int_vals.len(), "ints_all_reps": ints_all_reps.len(), "floats": floats.len(), "u128_above_i128": big_u.len()}));
     meta.families.push(arith.finish());
     meta.families.push(neg.finish());
     meta.families.push(cmp.finish());
     meta.families.push(prim.finish());
+    meta.families.push(cmpx.finish());
+    meta.extra.insert("cmp_core_float_pool_all_ordered_pairs".into(), json!(core_pairs));
+    meta.extra.insert("core_float_pool_bits".into(), json!(core_f.iter().map(|x| format!("{:#018x}", x.to_bits())).collect::<Vec<_>>()));
     meta.write(&args.out);
 }
